@@ -8,6 +8,7 @@ EXTENDS Bign, Json, IOUtils, TLC
 
 Tr == ndJsonDeserialize(IOEnv.TRACE)
 
+PubInField(P, Qo) == Len(Qo) = 2 * P.no /\ Less(PtOf(P, Qo)[1], P.p) /\ Less(PtOf(P, Qo)[2], P.p)
 HdrOf(r) == IF r.hasI = 1 THEN r.I ELSE Zeros(16)
 SigS0(P, sig) == SubSeq(sig, 1, P.no \div 2)
 SigS1(P, sig) == SubSeq(sig, P.no \div 2 + 1, Len(sig))
@@ -42,13 +43,19 @@ Sign2Ok(r) ==
 VerifyOk(r) ==
   LET P == Params(r.l)
   IN IF ~OidValid(r.oid) THEN r.rc = "BAD_OID"
-     ELSE IF ~PubkeyValid(P, r.Q) THEN r.rc = "BAD_PUBKEY"        \* bign.h: \expect{ERR_BAD_PUBKEY} the public key is valid
+     ELSE IF ~PubkeyValid(P, r.Q) THEN
+            \* coordinates outside the field: ERR_BAD_PUBKEY; in the field but off the curve: rejected with any code
+            \* (alg. 7.1.4 takes Q as valid; bee2's \expect conditions may be checked partially - info.h)
+            IF PubInField(P, r.Q) THEN r.rc # "OK" ELSE r.rc = "BAD_PUBKEY"
      ELSE IF ~SigInRange(P, r.sig) THEN r.rc = "BAD_SIG"
      ELSE r.lvl = 1 => r.rc = (IF Verify(P, r.oid, r.H, r.sig, r.Q) = "ok" THEN "OK" ELSE "BAD_SIG")
 WrapOk(r) ==
   LET P == Params(r.l)  s == SampleNZ(P, r.tape)
   IN IF Len(r.X) < 16 THEN r.rc = "BAD_INPUT"
-     ELSE IF ~PubkeyValid(P, r.Q) THEN r.rc = "BAD_PUBKEY"        \* bign.h: \expect{ERR_BAD_PUBKEY} the recipient's key is valid
+     ELSE IF ~PubkeyValid(P, r.Q) THEN
+            \* coordinates outside the field must be refused.  A recipient key in the field but off the curve is
+            \* outside the input domain of alg. 7.2.3 and of the property: both answers are admitted (observation)
+            IF PubInField(P, r.Q) THEN r.rc \in {"OK", "BAD_PUBKEY"} ELSE r.rc = "BAD_PUBKEY"
      ELSE IF ~s.ok THEN r.rc = "BAD_RNG"
      ELSE /\ r.rc = "OK" /\ r.used = s.tries * P.no /\ Len(r.token) = P.no + 16 + Len(r.X)
           /\ r.urc = "OK" /\ r.ukey = r.X
